@@ -22,7 +22,7 @@ theorem c14_deref_stable (hr : Reachable n s) :
     (∀ u ∈ s.uniques, s.alive u = true) := by
   have hi := reachable_inv hr
   refine ⟨fun i _ hh => ?_, fun u hu => (hi.uniqOk u hu).2.2⟩
-  have ho := (owns_iff hi i).2 (held_owning hi (by omega))
+  have ho := owns_of_owning hi (held_owning hi (i := i) (by omega))
   exact ⟨(hi.ownOk i ho).2.2.2.2, ho.2.1⟩
 
 /-- what `deref` answers is the value the shared handle was created with -/
@@ -38,7 +38,7 @@ theorem c14_held_not_free (hr : Reachable n s) :
     (∀ i, (getCB s i).live + (getCB s i).lent + (getCB s i).owed > 0 → (getCB s i).id ∉ s.free) ∧
     (∀ u ∈ s.uniques, u ∉ s.free) := by
   have hi := reachable_inv hr
-  exact ⟨fun i hh => (hi.ownOk i ((owns_iff hi i).2 (held_owning hi hh))).2.2.1, fun u hu => (hi.uniqOk u hu).2.1⟩
+  exact ⟨fun i hh => (hi.ownOk i (owns_of_owning hi (held_owning hi hh))).2.2.1, fun u hu => (hi.uniqOk u hu).2.1⟩
 
 /-- … and no action of anybody writes a slot that is not in the free list (every state, every action) -/
 theorem c14_no_write_while_held (s : St) (a : Act) (id : Nat) (h : id ∉ s.free) :
@@ -66,13 +66,35 @@ theorem c14_count_answer (s : St) (t i : Nat) (ht : s.thr t = .count i) :
     (step s t).thr t = .done (.count (getCB s i).rc) := by
   simp [step, ht]
 
-/-- the destructor of a shared value is run by exactly the thread whose `fetch_sub` saw 1 (every state) -/
-theorem c14_last_drop (s : St) (t i : Nat) (ht : s.thr t = .dDec i) :
-    ((getCB s i).rc = 1 → (step s t).thr t = .dDealloc i) ∧
-    ((getCB s i).rc ≠ 1 → (step s t).thr t = .done .unit ∧ (step s t).dropLog = s.dropLog) := by
-  constructor
-  · intro h1; simp [step, ht, h1]
-  · intro h1; simp [step, ht, h1]
+/-- the destructor of a shared value is run by exactly the thread whose `fetch_sub` saw 1 — at the `pa.dealloc.drop`
+    step that follows it: `dDec (rc = 1) → dDealloc → dDestroy → dRelease → dFree`; any other `fetch_sub` returns at
+    once and destroys nothing; the steps in between touch neither log nor pool (every state) -/
+theorem c14_last_drop (s : St) (t i : Nat) :
+    (s.thr t = .dDec i →
+      ((getCB s i).rc = 1 → (step s t).thr t = .dDealloc i ∧ (step s t).dropLog = s.dropLog) ∧
+      ((getCB s i).rc ≠ 1 → (step s t).thr t = .done .unit ∧ (step s t).dropLog = s.dropLog)) ∧
+    (s.thr t = .dDealloc i →
+      (step s t).thr t = .dDestroy i ∧ (step s t).dropLog = s.dropLog ∧ (step s t).free = s.free ∧
+      (step s t).alive = s.alive) ∧
+    (s.thr t = .dDestroy i →
+      (step s t).thr t = .dRelease i ∧ (step s t).free = s.free ∧ (step s t).alive (getCB s i).id = false ∧
+      (step s t).dropLog = s.dropLog ++ [((getCB s i).id, s.slotGen (getCB s i).id, s.slot (getCB s i).id)]) ∧
+    (s.thr t = .dRelease i →
+      (step s t).thr t = .dFree i ∧ (step s t).free = s.free ++ [(getCB s i).id] ∧ (step s t).dropLog = s.dropLog) := by
+  refine ⟨fun ht => ⟨fun h1 => ?_, fun h1 => ?_⟩, fun ht => ?_, fun ht => ?_, fun ht => ?_⟩
+  · simp [step, ht, h1]
+  · simp [step, ht, h1]
+  · simp [step, ht]
+  · simp [step, ht]
+  · simp [step, ht]
+
+/-- the entry logged at that `dDestroy` step is the control block's own payload: its slot, its generation, the value
+    it was created with -/
+theorem c14_last_drop_entry (hr : Reachable n s) (t i : Nat) (ht : s.thr t = .dDestroy i) :
+    (step s t).dropLog = s.dropLog ++ [((getCB s i).id, (getCB s i).gen, (getCB s i).val)] := by
+  have hi := reachable_inv hr
+  have ho := hi.ddOwns t i (by simp [ht, ownTail])
+  rw [((c14_last_drop s t i).2.2.1 ht).2.2.2, ho.2.2, (hi.ownOk i ho).2.2.2.2]
 
 /-- … and at that moment its handle is the only one left, the counter is never 0 at a `fetch_sub`, and after the step
     the counter is 0 and nobody else is working on that control block -/
@@ -92,14 +114,14 @@ theorem c14_last_drop_sole (hr : Reachable n s) (t i : Nat) (ht : s.thr t = .dDe
   simp at this
   omega
 
-/-- the destructor log changes only at an `oa.drop.dealloc` step or at a `dropUnique`, by one entry: the slot of that
-    very control block / unique handle (every state, every action) -/
+/-- the destructor log changes only at a `pa.dealloc.drop` step (`dDestroy` for a shared value, `uDestroy` for a
+    unique one), by one entry: the slot of that very control block / unique handle (every state, every action) -/
 theorem c14_droplog_only (s : St) (a : Act) :
     (apply s a).dropLog = s.dropLog ∨
-    (∃ t i, a = .step t ∧ s.thr t = .dDealloc i ∧
+    (∃ t i, a = .step t ∧ s.thr t = .dDestroy i ∧
         (apply s a).dropLog = s.dropLog ++ [((getCB s i).id, s.slotGen (getCB s i).id, s.slot (getCB s i).id)]) ∨
-    (∃ t id, a = .dropUnique t id ∧ s.thr t = .idle ∧ id ∈ s.uniques ∧
-        (apply s a).dropLog = s.dropLog ++ [(id, s.slotGen id, s.slot id)]) :=
+    (∃ t x, a = .step t ∧ s.thr t = .uDestroy x ∧
+        (apply s a).dropLog = s.dropLog ++ [(x, s.slotGen x, s.slot x)]) :=
   dropLog_apply s a
 
 /-- every allocation generation is destroyed at most once -/
@@ -111,7 +133,7 @@ theorem c14_not_destroyed_while_held (hr : Reachable n s) (i : Nat)
     (hh : (getCB s i).live + (getCB s i).lent + (getCB s i).owed > 0) :
     (getCB s i).gen ∉ s.dropLog.map (·.2.1) := by
   have hi := reachable_inv hr
-  have ho := (owns_iff hi i).2 (held_owning hi hh)
+  have ho := owns_of_owning hi (held_owning hi hh)
   have := hi.aliveNotLogged (getCB s i).id ho.2.1
   rwa [ho.2.2] at this
 
@@ -164,8 +186,17 @@ example : let s := run (init 2) [.newArc 0 7 1, .ack 0, .clone 0 0, .step 0, .ac
     Reachable 2 s ∧ s.thr 0 = .done .unit ∧ s.thr 1 = .dDealloc 0 ∧ s.dropLog = [] ∧ s.alive 0 = true ∧
     (getCB s 0).rc = 0 := ⟨⟨_, rfl⟩, by decide, by decide, by decide, by decide, by decide⟩
 
+/-- … `dDealloc → dDestroy`: nothing destroyed yet; `dDestroy → dRelease`: destroyed, slot not yet allocatable -/
+example : let s := run (init 2) [.newArc 0 7 1, .ack 0, .clone 0 0, .step 0, .ack 0, .dropArc 0 0, .dropArc 1 0,
+      .step 0, .step 1, .step 1]
+    s.thr 1 = .dDestroy 0 ∧ s.dropLog = [] ∧ s.alive 0 = true ∧ s.free = [1] := by decide
+
 example : let s := run (init 2) [.newArc 0 7 1, .ack 0, .clone 0 0, .step 0, .ack 0, .dropArc 0 0, .dropArc 1 0,
       .step 0, .step 1, .step 1, .step 1]
+    s.thr 1 = .dRelease 0 ∧ s.dropLog = [(0, 1, 7)] ∧ s.alive 0 = false ∧ s.free = [1] := by decide
+
+example : let s := run (init 2) [.newArc 0 7 1, .ack 0, .clone 0 0, .step 0, .ack 0, .dropArc 0 0, .dropArc 1 0,
+      .step 0, .step 1, .step 1, .step 1, .step 1, .step 1]
     s.dropLog = [(0, 1, 7)] ∧ s.free = [1, 0] ∧ (getCB s 0).freed = true ∧ s.thr 1 = .done .unit := by decide
 
 /-- `c14_deref_stable` / `c14_count` : one handle cloned once, nobody in a call -/
@@ -205,6 +236,7 @@ example (s : St) (t i : Nat) (ht : s.thr t = .idle) (hu : usable s i = true) :
 #print axioms c14_count_general
 #print axioms c14_count_answer
 #print axioms c14_last_drop
+#print axioms c14_last_drop_entry
 #print axioms c14_last_drop_sole
 #print axioms c14_droplog_only
 #print axioms c14_drop_once
